@@ -15,7 +15,8 @@ TITLE = 'dictable behaves as a rectangular list of records under any operation h
 STATEMENT = ('after any history of public table operations every column has one length, len/shape agree, d[i][c] == d[c][i], '
              'iteration yields the rows, concat appends rows with None fill, operands are never altered and a non-fitting '
              'assignment is rejected with ValueError')
-LEAN_FILES = ['Basic', 'TableBasic', 'Table', 'TableDriver', 'TableLemmas', 'C01']
+LEAN_FILES = ['Basic', 'Cmp', 'Sort', 'TableBasic', 'Table', 'TableDriver', 'TableLemmas', 'TableRect', 'TableRows', 'TableCons',
+              'TableNodup', 'SliceLemmas', 'C01']
 RULE = ('distinct protocol lines of generated histories on which the implementation returned a value (not an exception); '
         'every line also compares the dump of all live tables')
 TRUSTED = ['correspondence harness (pv.engine, pv.proto) and generators / law checks of pv.props.c01',
@@ -462,6 +463,17 @@ def g_new(S, dst=None, allow_bad=True):
             S.tags.add('new-columns-restriction')
 
 
+def absent(cols):
+    """a column name the table does not have"""
+    for c in ('q', 'r', 's', 'u', 'w'):
+        if c not in cols:
+            return c
+    k = 0
+    while 'q%d' % k in cols:
+        k += 1
+    return 'q%d' % k
+
+
 def g_op(S):
     rng = S.rng
     if not S.t:
@@ -497,7 +509,7 @@ def g_op(S):
                 S.t[h][1] = 0
                 S.tags.add('no-columns')
         else:
-            k = rng.choice([c for c in NAMES + ['q'] if c not in cols])
+            k = absent(cols)
             S.emit('(tbl delitem h%d %s)', h, enc(k))
             S.tags.add('delitem-missing')
         return
@@ -519,7 +531,7 @@ def g_op(S):
         idc = [c for c in cols if c.isidentifier()]
         if q == 'apply':
             if rng.random() < 0.15 or not idc:
-                f = fn_spec('idcol', 'q') if rng.random() < 0.6 else fn_spec('const', S.cell())
+                f = fn_spec('idcol', absent(cols)) if rng.random() < 0.6 else fn_spec('const', S.cell())
             elif len(idc) >= 2 and rng.random() < 0.4:
                 f = fn_spec('coalesce', *rng.sample(idc, 2))
             else:
@@ -532,10 +544,10 @@ def g_op(S):
             i = rng.randrange(-n, n) if n and rng.random() < 0.85 else rng.choice([n, -n - 1, n + 2])
             S.emit('(tbl row h%d I:%d)', h, i)
         elif q == 'col':
-            k = rng.choice(cols) if cols and rng.random() < 0.85 else 'q'
+            k = rng.choice(cols) if cols and rng.random() < 0.85 else absent(cols)
             S.emit('(tbl col h%d %s)', h, enc(k))
         else:
-            ks = [rng.choice(cols) for _ in range(rng.choice([1, 2, 3]))] if cols and rng.random() < 0.9 else ['a', 'q']
+            ks = [rng.choice(cols) for _ in range(rng.choice([1, 2, 3]))] if cols and rng.random() < 0.9 else ['a', absent(cols)]
             S.emit('(tbl tup h%d %s)', h, enc(tuple(ks)))
         return
     dst = S.dst()
@@ -602,7 +614,7 @@ def g_op(S):
             S.emit('(tbl proj h%d h%d %s)', dst, h, enc(ks))
             S.bind(dst, [c for i, c in enumerate(ks) if c not in ks[:i]], n)
         else:
-            S.emit('(tbl proj h%d h%d %s)', dst, h, enc(['q'] + cols[:1]))
+            S.emit('(tbl proj h%d h%d %s)', dst, h, enc([absent(cols)] + cols[:1]))
             S.tags.add('proj-missing')
         return
     if r < 0.82:        # derived columns
@@ -616,7 +628,7 @@ def g_op(S):
         items = {}
         newc = list(cols)
         if q < 0.10:    # a parameter that is not a column -> TypeError when there are rows
-            items[rng.choice(NAMES)] = fn_spec('idcol', 'q')
+            items[rng.choice(NAMES)] = fn_spec('idcol', absent(cols))
             S.emit('(tbl call h%d h%d %s)', dst, h, kv(items, str))
             if n == 0:
                 S.bind(dst, newc + [k for k in items if k not in newc], 0)
@@ -679,7 +691,7 @@ def g_op(S):
                 if pool:
                     mp[o] = pool.pop(rng.randrange(len(pool)))
             if rng.random() < 0.2:
-                mp['q'] = 'r'      # renaming a column that is not there changes nothing
+                mp[absent(cols)] = absent(cols + [absent(cols)])      # renaming a column that is not there changes nothing
             if len(cols) >= 2 and rng.random() < 0.1:
                 x, y = rng.sample(cols, 2)
                 mp = {x: y, y: x}      # a swap
@@ -693,9 +705,10 @@ def g_op(S):
         q = rng.random()
         f = rng.choice([fn_spec('isnone'), fn_spec('dflt', S.cell())] + ([fn_spec('coalesce', rng.choice(idc))] if idc else []))
         if q < 0.12:
-            S.emit('(tbl do h%d h%d %s %s)', dst, h, f, enc(['q']))
+            miss = absent(cols)
+            S.emit('(tbl do h%d h%d %s %s)', dst, h, f, enc([miss]))
             if n == 0 or not cols:
-                S.bind(dst, cols + ['q'], 0 if cols else 0)
+                S.bind(dst, cols + [miss], 0)
             S.tags.add('do-missing-key')
         elif q < 0.5:
             S.emit('(tbl do h%d h%d %s N)', dst, h, f)
